@@ -10,7 +10,7 @@
   * a transaction is an opaque payload: lists of external node ids, edge ids and property ids.
   Core imports only (the driver links this file).
 -/
-import Nervus.Spec.TxLog
+import Nervus.Spec.CrashTxLog
 namespace Nervus.Crash
 
 /-- WAL records at this abstraction (mirrors `WalRecord`; page/label records do not occur) -/
